@@ -107,7 +107,9 @@ func recomputeType(v value.Value) (recomputed types.Type, had bool, panicMsg str
 }
 
 func c06Mgen(r *fw.Rec, seed int64) {
-	gm := mgen.Generate(seed, mgen.DefaultFeatures())
+	feat := mgen.DefaultFeatures()
+	feat.AllocaAS = true // C06 validates with llvm-as only
+	gm := mgen.Generate(seed, feat)
 	ok, msg, err := llvmref.Accepts(gm.Text)
 	if err != nil {
 		r.Inconclusive("llvm tool failure")
